@@ -88,6 +88,45 @@ def r17_1(ctx):
     return f
 
 
+def _fields_checked_on_success(g, pname):
+    """fields of the record behind pointer parameter `pname` that g compares against
+    something else on every path that returns 0"""
+    result = [None]
+
+    def step(n, facts):
+        if n['k'] == 'ret':
+            v = cu.const_of(cu.strip_casts(g, g.kid(n, 0))) if n.get('c') else None
+            if v == 0:
+                cur = set(x[1] for x in facts)
+                result[0] = cur if result[0] is None else (result[0] & cur)
+            return None
+        return facts
+
+    def edge(b, term, cond, idx, succ, facts):
+        pol = paths.branch_polarity(g, term, idx)
+        if pol is None or cond is None:
+            return facts
+        c, _ = paths.normalise_cond(g, cond, pol)
+        if c is None or c['k'] != 'bin' or c['op'] not in RELOPS:
+            return facts
+        out = set()
+        for x, y in ((g.kid(c, 0), g.kid(c, 1)), (g.kid(c, 1), g.kid(c, 0))):
+            xs = [m for m in g.walk(x) if m['k'] == 'member' and m.get('arrow') and
+                  cu.strip_casts(g, g.kid(m, 0)) is not None and
+                  cu.strip_casts(g, g.kid(m, 0))['k'] == 'ref' and
+                  cu.strip_casts(g, g.kid(m, 0))['name'] == pname]
+            ys = [m for m in g.walk(y) if m['k'] == 'ref' and m['name'] == pname]
+            if xs and not ys:
+                root, path = cu.member_path(g, xs[0])
+                out.add(('chk', path[-1] if path else xs[0]['fld']))
+        return frozenset(facts) | out if out else facts
+    try:
+        paths.explore(g, set(), step, edge, max_states=2000)
+    except paths.Budget:
+        return set()
+    return result[0] or set()
+
+
 def r17_2(ctx):
     f = ctx.fn(LOADER, 'libyara/arena.c')
     # taint sources
@@ -228,11 +267,44 @@ def r17_2(ctx):
             return None
         return facts
 
+    # helpers that validate a file-derived record handed to them by address: the fields
+    # they compare against a bound on every path that returns success count as compared
+    # in the caller once the helper's result was tested (extract-function refactorings)
+    helper_checked = {}
+    for c in f.calls():
+        g = f.tu.functions.get(c.get('callee', '')) if c.get('callee') else None
+        if g is None or not getattr(g, 'static', False):
+            continue
+        for i, a in enumerate(f.call_args(c)):
+            a = cu.strip_casts(f, a)
+            if a is not None and a['k'] == 'un' and a['op'] == '&':
+                v = f.kid(a, 0)
+                if v is not None and v['k'] == 'ref' and v['name'] in sources and i < len(g.params):
+                    flds = _fields_checked_on_success(g, g.params[i]['name'])
+                    if flds:
+                        helper_checked[c['i']] = set('%s.%s' % (v['name'], fl) for fl in flds)
+
     def edge(b, term, cond, idx, succ, facts):
         pol = paths.branch_polarity(f, term, idx)
         if pol is None or cond is None:
             return facts
-        c, _ = paths.normalise_cond(f, cond, pol)
+        c, p_ = paths.normalise_cond(f, cond, pol)
+        # FAIL_ON_ERROR(helper(&record)): on the success edge the helper's checks hold
+        if c is not None and c['k'] == 'bin' and c['op'] in ('!=', '==') and \
+                cu.const_of(cu.strip_casts(f, f.kid(c, 1))) == 0:
+            l = cu.strip_casts(f, f.kid(c, 0))
+            hc = None
+            if l is not None and l['k'] == 'call' and l['i'] in helper_checked:
+                hc = helper_checked[l['i']]
+            elif l is not None and l['k'] == 'ref':
+                for d in f.all_nodes():
+                    if d['k'] == 'decl' and d['name'] == l['name'] and d.get('c'):
+                        r0 = cu.strip_casts(f, f.kid(d, 0))
+                        if r0 is not None and r0['k'] == 'call' and r0['i'] in helper_checked and \
+                                f.is_ancestor(f.parent(f.parent(d)), c) if f.parent(d) is not None else False:
+                            hc = helper_checked[r0['i']]
+            if hc and ((c['op'] == '==') == p_):
+                return frozenset(facts) | set(('chk', k) for k in hc)
         if c is not None and c['k'] == 'bin' and c['op'] in RELOPS:
             ks = set()
             a0, a1 = f.kid(c, 0), f.kid(c, 1)
